@@ -144,7 +144,11 @@ class Wire(object):
             reason = failure.Failure(reason)
         self.lost_seq = self._tick()
         self.connected = False
-        self.proto.connectionLost(reason)
+        try:
+            self.proto.connectionLost(reason)
+        except Exception:
+            # a Twisted transport logs an exception escaping connectionLost and carries on
+            log.err(failure.Failure(), "connectionLost raised")
 
 
 # --------------------------------------------------------------------------
